@@ -85,6 +85,11 @@ func (b both) String() string      { return "String() of an HTMLer must not be u
 // if it does it may not print verbatim ("ONLY values explicitly typed as trusted HTML are emitted verbatim").
 type named string
 
+// boxed is a wrapper in the manner of nulls.String: it prints what Interface() returns.
+type boxed struct{ v interface{} }
+
+func (b boxed) Interface() interface{} { return b.v }
+
 type iter struct {
 	xs []interface{}
 	i  int
@@ -155,10 +160,11 @@ var bases = map[string]baseDef{
 	"HTMLer by pointer":     {expr: func(t string) string { return "php" }, tags: "r"},
 	"HTMLer and Stringer":   {expr: func(t string) string { return "both" }, tags: "r"},
 	// values the statement does not oblige plush to print, but which may never print verbatim
-	"*string var":       {expr: func(t string) string { return map[string]string{"string": "ptrs", "raw": "ptrs", "html": "ptrh"}[t] }, tags: "sh", weak: true},
-	"[]*string elem":    {expr: func(t string) string { return "ips[1]" }, tags: "s", weak: true},
-	"helper->*string":   {expr: func(t string) string { return "hps()" }, tags: "s", weak: true},
-	"named string type": {expr: func(t string) string { return "nm" }, tags: "s", weak: true},
+	"*string var":              {expr: func(t string) string { return map[string]string{"string": "ptrs", "raw": "ptrs", "html": "ptrh"}[t] }, tags: "sh", weak: true},
+	"[]*string elem":           {expr: func(t string) string { return "ips[1]" }, tags: "s", weak: true},
+	"helper->*string":          {expr: func(t string) string { return "hps()" }, tags: "s", weak: true},
+	"wrapper with Interface()": {expr: func(t string) string { return "bx" }, tags: "shr", weak: true},
+	"named string type":        {expr: func(t string) string { return "nm" }, tags: "s", weak: true},
 }
 
 func (i inner) GetF() string        { return i.F }
@@ -233,6 +239,10 @@ var sinks = []string{
 	"same text trusted and not: loop", "same text trusted and not: fn body", "same text trusted and not: block helper", "same text trusted and not: contentOf data", "same text trusted and not: partial data",
 	// composition of the composition mechanisms
 	"helper Render of held", "partial in contentFor", "block helper in partial",
+	// a helper whose parameter is template.HTML: a plain string is not one (an error is fine, trusting the string is not)
+	"helper with template.HTML parameter",
+	// plush's own debug() helper wraps the printed form of its argument in <pre> tags: the tags are markup, the argument is text
+	"built-in debug helper",
 }
 
 // sinks for context collections that are emitted without an expression route; the value says which tags apply
@@ -284,6 +294,7 @@ func mkData(p, tag string, partials map[string]string) map[string]interface{} {
 		"it": &iter{xs: []interface{}{"i0", v}},
 		// other spellings of trusted, and values that are neither strings nor trusted
 		"sh": strHTMLer(p), "php": &phtmler{p}, "both": both{p},
+		"bx":   boxed{v},
 		"ptrs": &ps, "ptrh": &ph, "ips": []*string{&px, &ps}, "nm": named(p), "nms": []named{"n0", named(p)},
 		// helpers
 		"hse":   func() (string, error) { return p, nil },
@@ -292,6 +303,7 @@ func mkData(p, tag string, partials map[string]string) map[string]interface{} {
 		"hps":   func() *string { return &ps },
 		"hst":   func() outer { return outer{F: p, H: template.HTML(p), Hr: htmler{p}} },
 		"opt":   func(o map[string]interface{}) interface{} { return o["v"] },
+		"idh":   func(h template.HTML) template.HTML { return h }, // accepts trusted HTML only
 		"vari":  func(a ...string) string { return a[len(a)-1] },
 		"varii": func(a ...interface{}) interface{} { return a[len(a)-1] },
 		"blk2": func(h plush.HelperContext) (template.HTML, error) {
@@ -697,6 +709,18 @@ func build(c Case, dropped bool) (src string, partials map[string]string, parts 
 			rp = []match.Part{match.R(pre + p + suf)}
 		}
 		parts = cat(lit("["), rp, lit("]["), P(), lit("]["), rp, lit("]["), P(), lit("]"))
+	case "helper with template.HTML parameter":
+		if b.weak {
+			return "", nil, nil, "a pointer is not a template.HTML argument"
+		}
+		sb.WriteString("[<%= idh(" + e + ") %>]")
+		parts = around("[", payloadParts(), "]")
+	case "built-in debug helper":
+		if c.Tag != "string" || b.weak {
+			return "", nil, nil, "debug() prints the Go form of its argument: asserted for plain strings"
+		}
+		sb.WriteString("[<%= debug(" + e + ") %>]")
+		parts = cat(lit("[<pre>"), P(), lit("</pre>]"))
 	case "helper Render of held":
 		sb.WriteString("<% let held = " + e + " %><%= rend(\"[<%= held %>]\") %>")
 		parts = around("[", payloadParts(), "]")
@@ -753,13 +777,13 @@ func nest(path []string, e string, P func() []match.Part, partials map[string]st
 		case "else":
 			return "<%= if (false) { %>no<% } else { %>" + in + "<% } %>", ip, true
 		case "for":
-			return "<%= for (i" + id + ") in [1, 2] { %>" + in + "<% } %>", cat(ip, ip), true
+			return "<%= for (ni" + id + ") in [1, 2] { %>" + in + "<% } %>", cat(ip, ip), true
 		case "formap":
-			return "<%= for (k" + id + ", v" + id + ") in {a: 1} { %>" + in + "<% } %>", ip, true
+			return "<%= for (nk" + id + ", nv" + id + ") in {a: 1} { %>" + in + "<% } %>", ip, true
 		case "foriter":
-			return "<%= for (i" + id + ") in range(1, 2) { %>" + in + "<% } %>", cat(ip, ip), true
+			return "<%= for (ni" + id + ") in range(1, 2) { %>" + in + "<% } %>", cat(ip, ip), true
 		case "fn":
-			return "<% let f" + id + " = fn() { %>" + in + "<% } %><%= f" + id + "() %>", ip, true
+			return "<% let nf" + id + " = fn() { %>" + in + "<% } %><%= nf" + id + "() %>", ip, true
 		case "blk":
 			return "<%= blk() { %>" + in + "<% } %>", ip, true
 		case "cfo":
@@ -776,8 +800,16 @@ func nest(path []string, e string, P func() []match.Part, partials map[string]st
 	return "{" + tmpl + "}", cat(lit("{"), parts, lit("}")), ok
 }
 
+// generator class of a genuine defect found by this check (helpers/debug/debug.go: Debug does not escape what Inspect
+// prints); while known_findings.json lists it as open the sink is skipped and counted, afterwards it is regression coverage
+const classDebugHelper = "built-in debug helper emits its argument verbatim"
+
 func check(r *vk.Run, c Case) *vk.Fail {
 	defer r.Watch("route", c)()
+	if c.Sink == "built-in debug helper" && r.OpenClass(classDebugHelper) {
+		r.Exclude(classDebugHelper)
+		return nil
+	}
 	src, partials, parts, skip := build(c, false)
 	if skip != "" {
 		r.Exclude("not-applicable: " + skip)
@@ -806,6 +838,9 @@ func check(r *vk.Run, c Case) *vk.Fail {
 	fail := func(f string, a ...interface{}) *vk.Fail {
 		return &vk.Fail{Kind: "route", Case: c, Msg: fmt.Sprintf("route [%s] payload %q: template %q: ", route, p, src) + fmt.Sprintf(f, a...)}
 	}
+	if rejected(r, c, res) {
+		return nil
+	}
 	if res.Panicked() || res.Err != nil {
 		return fail("%s", res)
 	}
@@ -821,6 +856,15 @@ func check(r *vk.Run, c Case) *vk.Fail {
 		return fail("output %q: %s", res.Out, m)
 	}
 	return nil
+}
+
+// rejected: a helper whose parameter is template.HTML may refuse a plain string or an HTMLer; then nothing is emitted.
+func rejected(r *vk.Run, c Case, res vk.Res) bool {
+	if !res.Panicked() && res.Err != nil && c.Sink == "helper with template.HTML parameter" && (c.Tag == "string" || c.Tag == "htmler") {
+		r.Class("helper with template.HTML parameter: other type rejected")
+		return true
+	}
+	return false
 }
 
 func weakRoute(c Case) bool {
@@ -861,8 +905,8 @@ func checkHistory(r *vk.Run, h History) *vk.Fail {
 			p = "<x>&" + p // the text changes as well
 		}
 		c := Case{Payload: vk.Text(p), Tag: tag, Base: "var", Sink: h.Sink}
-		if weakRoute(c) {
-			r.Exclude("not-applicable: weak sinks are judged by the route check")
+		if weakRoute(c) || h.Sink == "built-in debug helper" {
+			r.Exclude("not-applicable: judged by the route check")
 			return nil
 		}
 		src, partials, parts, skip := build(c, false)
@@ -895,6 +939,9 @@ func checkHistory(r *vk.Run, h History) *vk.Fail {
 			nt = fmt.Sprintf("%s | %v | %v | %d | %s", h.Sink, h.Tags, h.Cached, i, p)
 		}
 		r.Count(nt, "history/"+h.Sink)
+		if rejected(r, c, res) {
+			continue
+		}
 		if res.Panicked() || res.Err != nil {
 			return fail("execution %d (%s) of template %q: %s", i, tag, src, res)
 		}
